@@ -9,7 +9,7 @@ OK == <<"ok", "ok">>
 Verdict(ev) ==
   IF ~ev.fin THEN <<"-", "NonFinite">>
   ELSE IF ev.kind = "batch" THEN
-       (IF ElementIndependence(ev.T, ev.single, IF ev.same THEN TolSame ELSE TolRe) THEN OK ELSE <<"C06", "ElementIndependence">>)
+       (IF ElementIndependence(ev.T, ev.single, ev.same) THEN OK ELSE <<"C06", "ElementIndependence">>)
   ELSE IF ev.kind = "linear" THEN
        (IF Linearity(ev.obs, ev.obs1, ev.obs2, ev.a, ev.b, TolRe) THEN OK ELSE <<"C05", "Linearity">>)
   ELSE (IF Superposition(ev.whole, ev.parts, TolSame * 4) THEN OK ELSE <<"C05", "Superposition">>)
@@ -17,7 +17,7 @@ BadIdx == {i \in 1..Len(Trace) : Verdict(Trace[i])[1] # "ok"}
 ASSUME PrintT(<<"validated", Len(Trace), "rejected", Cardinality(BadIdx)>>)
 ASSUME \A i \in BadIdx : LET v == Verdict(Trace[i]) IN
    PrintT(<<"REJECT", Trace[i].tid, v[2], v[1], <<Trace[i].kind, Trace[i].field, Trace[i].what,
-            IF Trace[i].kind = "batch" THEN FirstBadElement(Trace[i].T, Trace[i].single, IF Trace[i].same THEN TolSame ELSE TolRe) ELSE <<0, 0, 0, 0>>>>>>)
+            IF Trace[i].kind = "batch" THEN FirstBadElement(Trace[i].T, Trace[i].single, Trace[i].same) ELSE <<0, 0, 0, 0>>>>>>)
 Init == x = 0
 Next == x' = x
 =============================================================================
